@@ -287,7 +287,10 @@ impl C14 {
             rec.violation("diagnostic-names-wrong-file", &format!("{}|{}", via, class), &format!("the diagnostic names {} but the offending entry is in {}", f, want_file), wit(json!({"diagnostic": text})));
             return false;
         }
-        if d.files.is_empty() {
+        if d.files.is_empty() && text.contains(want_file) {
+            // unknown layout, but the right file is named somewhere: the file clause holds
+            rec.count(&format!("{}:file-named-in-unknown-layout", via));
+        } else if d.files.is_empty() {
             rec.violation("diagnostic-names-no-file", &format!("{}|{}", via, class), &format!("the diagnostic does not name {}", want_file), wit(json!({"diagnostic": text})));
             return false;
         }
